@@ -106,6 +106,8 @@ THEOREMS = [
     "Verif.C20.salt_zero_pressure_viscosity_decreases_with_temperature",
     "Verif.C20.molality_to_molarity_increases",
     "Verif.C20.molarity_to_molality_root_is_unique",
+    "Verif.C20.hydro_surface_small_bead_limit",
+    "Verif.C20.water_functions_increase_with_molarity",
 ]
 RULE = (
     "corpus (reference points, boundary inputs) + fixed dense log-spaced grids over the property's domain (f 0.1 Hz-100 kHz, "
@@ -124,7 +126,7 @@ RULE = (
     "object called 1-4 times with different free parameters (the first call repeated at the end), bare and behind 0-2 wrapper steps, "
     "Lorentzian / hydrodynamic / axial models; coupling_correction_2d for 1-8 bead pairs in one call (same geometry repeated, sorted "
     "sweep of separations, mixed directions and separations 2.005-1e4 radii, axis-aligned directions) as numpy arrays, lists or floats, "
-    "every option combination + a "
+    "every option combination; bispherical coordinates (to_curvilinear_coordinates) for every ordered pair of sizes x separations from a relative gap of 1e-6 to 1e4 summed radii; the Stimson-Jeffery factors of every `couple` / `stimson2` case with a gap >= 1e-6 also from the model + a "
     "malformed stream (PassiveCalibrationModel arguments, temperatures/pressures/molalities outside the validity ranges, "
     "overlapping beads (alone and as one pair of an array), fixed relaxation factors outside [0, 1], fixed diode frequencies <= 0) whose only oracle is 'the documented error, never data'. Non-trivial: the case evaluates a formula "
     "inside its validity domain (not an error case) and, for wall/coupling corrections, at R/h or R/d >= 1e-3 (where the "
@@ -136,7 +138,8 @@ TRUSTED = [
     "(rel 1e-9; complex drag: 1e-9 of the modulus) absorbs it",
     "C pow / numpy power for real exponents (RPow.rpow = Float.pow at Float, Real.rpow at R)",
     "np.sinc semantics (y = pi*where(x==0, 1e-20, x); sin(y)/y) are mirrored by the model and self-tested by the c20.sinc op",
-    "scipy.optimize.brentq (molarity -> molality) is not transcribed: where the model is asked a public-API question (c20.water) it brackets the root of the same residual on [0, 6] by 100 bisections (theorem bisect_brackets_sign_change); elsewhere it takes the molality; the round trip is explored",
+    "scipy.optimize.brentq (molarity -> molality) is not transcribed: where the model is asked a public-API question (c20.water) it brackets the root of the same residual on [0, 6] by 100 bisections (theorem bisect_brackets_sign_change); elsewhere it takes the molality; that the root is unique on [0, 6] mol/kg and is the molality the molarity was made from is a theorem about the exact residual (molarity_to_molality_root_is_unique), brentq's own convergence to it is explored (round trip to 1e-9)",
+    "Stimson-Jeffery series: the model writes sinh / cosh / arccosh through exp / log / sqrt (RealLike has no hyperbolic functions); near contact the series has thousands of cancelling summands, so c20.stimson is compared at rel 2e-8 instead of 1e-9; bispherical coordinates at rel 1e-9",
 ]
 ASSUMPTIONS = [
     "np.sqrt of the complex number r+0i is the principal root: real for r >= 0, +i sqrt(-r) for r < 0 (negative frequencies are reached through aliasing only); the hydrodynamic theorems are stated for f >= 0",
@@ -145,8 +148,8 @@ ASSUMPTIONS = [
     "molality <= 5.9 mol/kg (5.25 M) in generated cases: at the model's edge m = 6 the brentq round trip lands a rounding error outside the validity check",
     "public water functions (waterseq): molarity <= 5 M for T <= 90 C and <= 4.7 M above (molality stays below ~5.8 mol/kg, away from the validity edge), viscosity_of_water(T, 0.0) without a pressure is not generated (0.0 is falsy: the code answers with the Huber formula)",
     "after _set_drag the oracle accepts the published spectrum with either bulk drag coefficient (the one the model was built with, which is what the code and the model keep, or the transferred one): the property does not say which; the distance to the surface, radius and densities must be the model's",
-    "Stimson-Jeffery factors for unequal radii: judged by the oracle only (bounds, label-swap symmetry to 1e-8, agreement with the method-of-reflections expansion 1 - 3/2 b/d + 9/4 ab/d^2 to 5 (max(a,b)/d)^3 for max(a,b)/d <= 0.2, the equal-sphere series when the radii coincide)",
-    "Stimson-Jeffery series, equipartition of the hydrodynamic spectrum, monotonicity of the salt models: explored by the oracle only (no theorem)",
+    "Stimson-Jeffery factors: computed by the model (c20.stimson: bispherical coordinates, Eq. 25-31, the summation loop with its stopping rule and the overflow guard) for every generated case with a relative gap >= 1e-6 between the beads; theorems: the coordinates are the published ones, exchanging the labels exchanges the factors exactly, the loop is the series truncated at the first summand small for both beads; bounds (0,1) and the far-field limit stay with the oracle (bounds, label-swap symmetry to 1e-8, agreement with the method-of-reflections expansion 1 - 3/2 b/d + 9/4 ab/d^2 to 5 (max(a,b)/d)^3 for max(a,b)/d <= 0.2, the equal-sphere series when the radii coincide)",
+    "explored by the oracle only (no theorem): bounds (0,1) and far-field limit of the Stimson-Jeffery factors, equipartition of the hydrodynamic spectrum, temperature dependence of the salt viscosity at non-zero pressure (the zero-pressure part is a theorem)",
     "2-D coupling: the theorems are about the decomposition GIVEN the two one-dimensional factors (bounds and limit of the 2-D factor follow from those of the Goldman factor, a theorem, and of the Stimson-Jeffery factor, explored); the model is handed the implementation's own Stimson-Jeffery factor at each pair's distance; arrays of bead pairs keep separations >= 2.0045 radii (closer: the scalar `couple` cases; the series needs ~1/sqrt(gap) summands per pair and call), dx and dy have the same length (a float against an array is not documented to broadcast)",
     "fixed diode filter: installed the way calibrate_force does (model._filter = FixedDiodeModel(fixed_diode, fixed_alpha)) on models built with fast_sensor=False, BEFORE wrappers are derived; every call passes exactly the free parameters (f_diode first)",
     "private members of the library are used while they are reachable under the names of the pinned tree; when one is not (renamed by a refactoring) the same observation is made through a public route (calibrate_force(...).model for the drag transfer and the fixed filter, on one fixed synthetic trace, a fit that fails or takes more than a second skips the case; kappa of calibration_results for the corrected drag; the wrapper functions around __call__ for the wrapper methods; density_of_water for the salt-solution density) or, for the local drag factor of the hydrodynamic model, not at all ('?': ignored by the comparison and the oracle)",
@@ -779,7 +782,10 @@ def ops(case):
             line = "c20.outside couple2d"
         if c.get("expect") is not None:  # overlapping beads: the model's perpendicular factor knows no validity limit
             return ["c20.outside couple2d"] * (3 + len(pairs))
-        return [line, line, "c20.outside stimson"] + [f"c20.goldman {E(c['R'])} {E(math.sqrt(p[0] * p[0] + p[1] * p[1]))} {eb(c['rot'])}" for p in pairs]
+        dists = [math.sqrt(p[0] * p[0] + p[1] * p[1]) for p in pairs]
+        stl = (f"c20.stimsonlist {E(c['R'])} [{','.join(E(d) for d in dists)}]"
+               if all(d >= 2 * c["R"] * (1 + STIMSON_MODEL_GAP) for d in dists) else "c20.outside stimson")
+        return [line, line, stl] + [f"c20.goldman {E(c['R'])} {E(math.sqrt(p[0] * p[0] + p[1] * p[1]))} {eb(c['rot'])}" for p in pairs]
     if k == "chain":
         a = c
         tail = f"{cfg_tokens(c['cfg'])} {E(a['f'])} {E(a['fc'])} {E(a['D'])} {E(a['fd'])} {E(a['alpha'])}"
@@ -830,6 +836,8 @@ def agree(case, i, ia, ma):
     if isinstance(a, list):
         if len(a) != len(m):
             return False
+        if case["op"] == "couplevec" and ops(case)[i].startswith("c20.stimsonlist"):
+            return all(close(x, y, STIMSON_REL, 1e-300) for x, y in zip(a, m))
         if case["op"] == "drag":
             mod = math.hypot(a[0], a[1])
             return all(abs(x - y) <= REL * mod for x, y in zip(a, m))
@@ -2337,18 +2345,40 @@ def extra_coverage(results):
         if "f" in c and c["f"] > 0:
             d = int(math.floor(math.log10(c["f"])))
             fdec[str(d)] = fdec.get(str(d), 0) + 1
-    stim = {"model_asked": 0, "oracle_only(F14 gap<1e-6)": 0, "gap<1e-3": 0, "gap 1e-3..1": 0, "gap>=1": 0, "bispherical_cases": kinds.get("bispherical", 0)}
+    init = {}
+    for r in results:
+        cc = r["case"]
+        if cc["op"] in ("passive", "passiveblur", "passivealias", "chain", "setdrag", "fixeddiode") and "cfg" in cc:
+            cf = cc["cfg"]
+            err = next((a for a in r["impl"] if a.endswith("Error")), None)
+            key = ("rejected:" + err) if err else (("hydro" if cf["hydrodynamically_correct"] else "axial" if cf["axial"] else "lateral")
+                                                  + ("+surface" if cf["distance_to_surface"] is not None else "+bulk")
+                                                  + ("+given-viscosity" if cf["viscosity"] is not None else "+water-viscosity"))
+            init[key] = init.get(key, 0) + 1
+    salt = {"cases": 0, "m=0": 0, "m<=1e-6": 0, "m>5": 0, "p=35": 0, "T>=140": 0}
+    for r in results:
+        cc = r["case"]
+        if cc["op"] == "salt":
+            salt["cases"] += 1
+            salt["m=0"] += cc["m"] == 0
+            salt["m<=1e-6"] += 0 < cc["m"] <= 1e-6
+            salt["m>5"] += cc["m"] > 5
+            salt["p=35"] += cc["p"] == 35.0
+            salt["T>=140"] += cc["T"] >= 140
+    stim = {"model_asked": 0, "oracle_only(contact corpus)": 0, "gap<1e-3": 0, "gap 1e-3..1": 0, "gap>=1": 0, "bispherical_cases": kinds.get("bispherical", 0)}
     for r in results:
         for o, mo in zip(ops(r["case"]), r["model"]):
-            if o.startswith("c20.stimson"):
+            if o.startswith("c20.stimsonlist"):
+                stim["model_asked_for_arrays"] = stim.get("model_asked_for_arrays", 0) + 1
+            elif o.startswith("c20.stimson"):
                 stim["model_asked"] += 1
                 cc = r["case"]
                 r1, r2 = (cc["R"], cc["R"]) if cc["op"] == "couple" else (cc["R1"], cc["R2"])
                 gap = cc["d"] / (r1 + r2) - 1
                 stim["gap<1e-3" if gap < 1e-3 else "gap 1e-3..1" if gap < 1 else "gap>=1"] += 1
             elif o == "c20.outside stimson":
-                stim["oracle_only(F14 gap<1e-6)"] += 1
-    return {"stimson_series": stim, "case_kinds": kinds, "error_kinds": errs, "explore_only_observables": outside, "wall_ratio_histogram": near_wall,
+                stim["oracle_only(contact corpus)"] += 1
+    return {"stimson_series": stim, "passive_init_branches": init, "salt_model_points": salt, "case_kinds": kinds, "error_kinds": errs, "explore_only_observables": outside, "wall_ratio_histogram": near_wall,
             "hydro_branches": hydro_branch, "frequency_decades": fdec, "wrapper_chain_shapes": chains, "set_drag_models": setdrag, "stimson_radius_ratios": unequal,
             "fixed_diode_filter": fixedd, "coupling_2d_arrays": cvec, "water_query_sequences": wseq, "tolerance": "rel 1e-9 model vs implementation (complex drag: 1e-9 of the modulus)",
             "exhaustive": False,
